@@ -964,8 +964,10 @@ def gen_case(rng, api=None):
             others = [g["name"] for g in decl if g["name"] != f["name"]]
             f["deps"] = rng.sample(others, k=min(len(others), rng.choice([1, 1, 2])))
     alias_of = {}
-    if rng.random() < 0.05:
-        f = rng.choice(decl)          # aliases are outside the model: these cases feed the oracle only
+    if rng.random() < 0.09:
+        # aliases are outside the model: these cases feed the oracle only.  An earlier field is preferred so that
+        # valid fields come after a possible alias conflict
+        f = decl[0] if rng.random() < 0.6 else rng.choice(decl)
         f["alias_from"] = [f["name"] + "1"]
         alias_of[f["name"]] = f["name"] + "1"
     data = []
@@ -989,10 +991,13 @@ def gen_case(rng, api=None):
         r = rng.random()
         for i, (k, v) in enumerate(list(data)):
             if k == name:
-                if r < 0.6:
+                if r < 0.35:
                     data[i] = [al, v]
-                elif r < 0.8:
-                    data.insert(i + 1, [al, v if rng.random() < 0.5 else enc(rng.choice(INTS + STRS))])
+                elif r < 0.85:
+                    # given under both keys: the same value, or (mostly) another one -> AliasConflictError for this field only
+                    ty = next((g["ty"] for g in decl if g["name"] == name), None) or {"t": "int"}
+                    other = gen_val(rng, ty, good=True) if rng.random() < 0.5 else enc(rng.choice(INTS + STRS))
+                    data.insert(i + 1, [al, v if rng.random() < 0.25 else other])
                 break
     case = {"kind": "parse", "api": api, "optmode": rng.choice(["runtime", "class"]), "decl": decl, "opts": o, "data": data}
     if kwty is not None:
